@@ -119,6 +119,13 @@ class ParallelMovPattern(RewritePattern):
         unprocessed_children = Counter[SSAValue]()
 
         for idx, src, dst in zip(range(num_operands), srcs, dsts, strict=True):
+            if dst.type == riscv.Registers.ZERO and src.type != dst.type:
+                # Writes to the zero register are discarded (and it may be the output
+                # of several moves): emit the move, but keep it out of the graph.
+                width = op.input_widths.get_values()[idx]
+                results[idx] = _insert_mv_op(rewriter, src, dst.type, width).results[0]
+                continue
+
             # src.type points to something so it can't be a leaf
             leaves.discard(src.type)
 
